@@ -56,7 +56,10 @@ def datasets():
     out = []
     for i, size in enumerate(['tiny', 'mid', 'big']):
         d = randscenes.rand_scene(random.Random(f'C09data:{i}'), size)
-        out.append(tracer.build_frame({'rows': d['rows']}))
+        # the frames come as a caller may hand them in: columns of their own (several: their order in a set depends on the hash seed),
+        # permuted columns
+        lay = [{'extra': True, 'colperm': [5, 2, 4, 0]}, {'extra': 'mixed'}, None][i]
+        out.append(tracer.build_frame({'rows': d['rows'], 'layout': lay}))
     # data whose layering is sensitive to the mixture / slicing parameters: the canonical demo data (a group that
     # splits) and a two-level group
     from ampycloud.utils import mocker
